@@ -110,7 +110,7 @@ TIE_SRC = {"Intg": "rockit/sampling_method.py", "Dc": "rockit/direct_collocation
            "Spline": "rockit/spline_method.py"}
 
 
-def check_ties(pid):
+def check_ties(pid, chk=False):
     """{which: result} for the source ties of this property"""
     if pid not in TIED:
         return None
@@ -118,7 +118,7 @@ def check_ties(pid):
     out = {}
     for which in TIED[pid]:
         try:
-            out[which] = check_tie(REPO, which, tag=pid)   # one directory per property: checks may run concurrently
+            out[which] = check_tie(REPO, which, tag=pid, chk=chk)   # one directory per property: checks may run concurrently
         except Exception as e:
             out[which] = {"ok": False, "stage": "tie machinery failed", "log": "%s: %s" % (type(e).__name__, e), "lemmas": [], "assumptions": {}}
     return out
@@ -228,7 +228,7 @@ def main(argv=None):
     pr = check_props(pid) if ok else {"ok": False, "theorems": [], "assumptions": {}, "log": "not built"}
     if ok and not pr["ok"]:
         obligations_broken.append({"what": "Props/%s.v no longer checks" % pid, "log": pr["log"]})
-    tie = check_ties(pid) if ok else None
+    tie = check_ties(pid, chk=(tier == "thorough")) if ok else None
     for which, t in (tie or {}).items():
         if not t["ok"]:
             obligations_broken.append({"what": "the kernels translated from %s are no longer proved equal to the model (%s; lemmas %s of Tie/%sTie.v)"
@@ -308,7 +308,7 @@ def main(argv=None):
             "source_tie": ({which: {"translator": "harness/translate.py (Python ast -> Gallina, fail-closed)", "source": TIE_SRC[which],
                                     "generated": "work/gen_*/Gen/%sGen.v" % which, "tie_file": "coq/Tie/%sTie.v" % which,
                                     "ok": t["ok"], "stage": t["stage"], "lemmas": TIED[pid][which],
-                                    "assumptions": t.get("assumptions", {}), "generated_sha": t.get("generated_sha")}
+                                    "assumptions": t.get("assumptions", {}), "generated_sha": t.get("generated_sha"), "coqchk": t.get("coqchk")}
                             for which, t in tie.items()} if tie is not None else None),
             "known_findings_seen": sorted(seen_known.keys()),
             "extra": res.get("extra", {}),
